@@ -258,6 +258,15 @@ def gen_request(rng, n):
                 rx = rng.choice([f'^{a}', f'^[{letters}]', f'{a}$', f'(?<={a})[{letters}]', f'[{letters}](?={a})',
                                  f'(?<!^)[{letters}]'])
             custom.append((rx, rng.choice([-10.0, -5.0, -27.994915, -79.966331, -97.976896, 12.5])))
+    if rng.random() < 0.06:
+        # the caller's own accurate-mass water / ammonia rule on part of the built-in residue set, with the flag left
+        # on: two rules, each applicable where it matches (the values differ in the sixth decimal)
+        if rng.random() < 0.5:
+            custom.append((rng.choice(['[ST]', 'S', '[ED]', 'T']), -18.010565))
+            req['water_loss'] = True
+        else:
+            custom.append((rng.choice(['[QN]', 'K', '[RK]', 'N']), -17.026549))
+            req['ammonia_loss'] = True
     req['losses'] = custom
     # keep the request size bounded
     n_int = max(0, (n - 1) * (n - 2) // 2)
